@@ -32,7 +32,8 @@ const (
 	ssEIH      = 1 << 1 // multi-user server (identity header)
 	ssSegment  = 1 << 2 // AllowSegmentedFixedLengthHeader
 	ssPrefix   = 1 << 3 // unsafe request/response stream prefixes
-	ssFallback = 1 << 4 // unsafeFallbackAddress configured
+	ssFallback = 1 << 4 // server: unsafeFallbackAddress configured
+	ssFixSalt  = 1 << 4 // client targets: echo the request salt (without touching the declared length)
 	ssRaw      = 1 << 5 // data is raw wire bytes, nothing is sealed
 	ssFixTS    = 1 << 6 // overwrite the timestamp with now
 	ssFixLen   = 1 << 7 // overwrite declared lengths / salts / session ids with the consistent values
@@ -202,6 +203,29 @@ func ssServerSeeds() (sels []uint8, seeds [][]byte) {
 			add(cfg|ssFixTS|ssFixLen, ssReq(make([]byte, 11), cat(a, []byte{0, 0}, []byte("payload")), chunkRec(3, 3, 'k')))
 		}
 	}
+	// length fields one or two off in either direction
+	for _, a := range [][]byte{socksAddrIP(netip.MustParseAddr("127.0.0.1"), 0), socksAddrDomain("example.com", 443), socksAddrDomain(strings.Repeat("z", 255), 0)} {
+		for _, padActual := range []int{0, 1, 2, 900} {
+			for delta := -2; delta <= 3; delta++ {
+				decl := padActual + delta
+				if decl < 0 {
+					continue
+				}
+				vh := cat(a, binary.BigEndian.AppendUint16(nil, uint16(decl)), make([]byte, padActual))
+				add(ssFixTS|ssFixLen, ssReq(make([]byte, 11), vh, nil))
+				fixed := make([]byte, 11)
+				binary.BigEndian.PutUint16(fixed[9:], uint16(max(0, len(vh)+delta)))
+				add(ssFixTS, ssReq(fixed, vh, chunkRec(5, 5, 'x'))) // declared header length off by delta
+			}
+		}
+	}
+	for delta := -2; delta <= 2; delta++ {
+		for _, n := range []int{1, 2, 0xfffe} {
+			if n+delta > 0 && n+delta <= 0xffff {
+				add(ssFixTS, cat(ssServerPlain(targets[0], []byte("p"), 3, nil), chunkRec(n+delta, n, 'q')))
+			}
+		}
+	}
 	ta := targets[0]
 	good := ssServerPlain(ta, []byte("p"), 3, nil)
 	// hostile constants behind authentication
@@ -229,9 +253,8 @@ func ssServerSeeds() (sels []uint8, seeds [][]byte) {
 
 func FuzzSS2022Server(f *testing.F) {
 	sels, seeds := ssServerSeeds()
-	for i := range seeds {
-		f.Add(sels[i], uint8(i), uint16(0), seeds[i])
-		f.Add(sels[i], uint8(i*7+1), uint16(0x0b11), seeds[i])
+	for _, i := range thin(len(seeds), 160) {
+		f.Add(sels[i], uint8(i*7), uint16(i%3), seeds[i])
 	}
 	f.Fuzz(func(t *testing.T, sel, mode uint8, frag uint16, data []byte) { oracleSS2022Server(t, sel, mode, frag, data) })
 }
@@ -272,15 +295,12 @@ func newSSStreamServer(sel uint8) (*ss2022.StreamServer, ss2022.UserCipherConfig
 	return s, ucc, icc, nil
 }
 
-func oracleSS2022Server(t failer, sel, mode uint8, frag uint16, data []byte) {
-	desc := func() string { return fmt.Sprintf("sel=%#x mode=%#x frag=%#x data=%s", sel, mode, frag, hexs(data)) }
+// ssServerWire turns the fuzz input into the byte stream a client would put on the wire for the server
+// configuration sel: raw bytes as they are, or the plaintext structure sealed with the real keys.
+// firstLen is the length of the part the protocol requires to arrive in one read.
+func ssServerWire(sel uint8, data []byte, ucc ss2022.UserCipherConfig, icc ss2022.ServerIdentityCipherConfig) (wire []byte, firstLen int, err error) {
 	k := ssKeysFor(sel)
-	server, ucc, icc, err := newSSStreamServer(sel)
-	if err != nil {
-		t.Fatalf("harness: %v", err)
-	}
-	var wire []byte
-	firstLen := k.klen + ss2022.TCPRequestFixedLengthHeaderLength + 16
+	firstLen = k.klen + ss2022.TCPRequestFixedLengthHeaderLength + 16
 	if k.eih {
 		firstLen += ss2022.IdentityHeaderLength
 	}
@@ -288,42 +308,54 @@ func oracleSS2022Server(t failer, sel, mode uint8, frag uint16, data []byte) {
 		firstLen += len(reqPrefix)
 	}
 	if sel&ssRaw != 0 {
-		wire = data
-	} else {
-		rest := data
-		fixed := take(&rest, ss2022.TCPRequestFixedLengthHeaderLength)
-		vl := min(takeLen(&rest), len(rest))
-		vh := rest[:vl]
-		rest = rest[vl:]
-		if sel&ssFixTS != 0 {
-			fixed[0] = ss2022.HeaderTypeClientStream
-			binary.BigEndian.PutUint64(fixed[1:], uint64(time.Now().Unix()))
-		}
-		if sel&ssFixLen != 0 {
-			binary.BigEndian.PutUint16(fixed[9:], uint16(vl))
-		}
-		salt := detSalt(k.klen, data, sel)
-		if sel&ssPrefix != 0 {
-			wire = append(wire, reqPrefix...)
-		}
-		wire = append(wire, salt...)
-		if k.eih {
-			blk, err := icc.TCP(salt)
-			if err != nil {
-				t.Fatalf("harness: %v", err)
-			}
-			h := ss2022.PSKHash(k.upsk)
-			ih := make([]byte, 16)
-			blk.Encrypt(ih, h[:])
-			wire = append(wire, ih...)
-		}
-		sc, err := ucc.ShadowStreamCipher(salt)
+		return data, firstLen, nil
+	}
+	rest := data
+	fixed := take(&rest, ss2022.TCPRequestFixedLengthHeaderLength)
+	vl := min(takeLen(&rest), len(rest))
+	vh := rest[:vl]
+	rest = rest[vl:]
+	if sel&ssFixTS != 0 {
+		fixed[0] = ss2022.HeaderTypeClientStream
+		binary.BigEndian.PutUint64(fixed[1:], uint64(time.Now().Unix()))
+	}
+	if sel&ssFixLen != 0 {
+		binary.BigEndian.PutUint16(fixed[9:], uint16(vl))
+	}
+	salt := detSalt(k.klen, data, sel)
+	if sel&ssPrefix != 0 {
+		wire = append(wire, reqPrefix...)
+	}
+	wire = append(wire, salt...)
+	if k.eih {
+		blk, err := icc.TCP(salt)
 		if err != nil {
-			t.Fatalf("harness: %v", err)
+			return nil, 0, err
 		}
-		wire = sc.EncryptAppend(wire, fixed)
-		wire = sc.EncryptAppend(wire, vh)
-		wire = sealChunks(wire, sc, rest, sel&ssFixLen != 0)
+		h := ss2022.PSKHash(k.upsk)
+		ih := make([]byte, 16)
+		blk.Encrypt(ih, h[:])
+		wire = append(wire, ih...)
+	}
+	sc, err := ucc.ShadowStreamCipher(salt)
+	if err != nil {
+		return nil, 0, err
+	}
+	wire = sc.EncryptAppend(wire, fixed)
+	wire = sc.EncryptAppend(wire, vh)
+	wire = sealChunks(wire, sc, rest, sel&ssFixLen != 0)
+	return wire, firstLen, nil
+}
+
+func oracleSS2022Server(t failer, sel, mode uint8, frag uint16, data []byte) (out oracleResult) {
+	desc := func() string { return fmt.Sprintf("sel=%#x mode=%#x frag=%#x data=%s", sel, mode, frag, hexs(data)) }
+	server, ucc, icc, err := newSSStreamServer(sel)
+	if err != nil {
+		t.Fatalf("harness: %v", err)
+	}
+	wire, firstLen, err := ssServerWire(sel, data, ucc, icc)
+	if err != nil {
+		t.Fatalf("harness: %v", err)
 	}
 	firstMin := 0
 	if frag&0x8000 == 0 {
@@ -347,6 +379,7 @@ func oracleSS2022Server(t failer, sel, mode uint8, frag uint16, data []byte) {
 		path = "fallback"
 	}
 	res := useAddr(t, recSSServer, "ss2022-server", req.Addr, req.Username, false)
+	out = oracleResult{true, req.Addr, req.Username, res}
 	var n int64
 	guard(t, recSSServer, "ss2022-server-tunnel", desc, func() {
 		_ = len(req.Payload)
@@ -373,6 +406,7 @@ func oracleSS2022Server(t failer, sel, mode uint8, frag uint16, data []byte) {
 		labels = append(labels, "chunks-read")
 	}
 	recSSServer.Case(fmt.Sprintf("%#x/%s/%s/%d", sel&0x1f, path, cls, mode&3), res.routed > 0, labels...)
+	return
 }
 
 // ---------------------------------------------------------------- TCP client (first read + stream)
@@ -395,7 +429,10 @@ func ssClientSeeds() (sels []uint8, seeds [][]byte) {
 		add(cfg|ssFixLen, cat(hdr[:1], make([]byte, 8), hdr[9:], []byte{0, 5}, []byte("hello")))
 		hdr0 := append([]byte(nil), hdr...)
 		binary.BigEndian.PutUint16(hdr0[len(hdr0)-2:], 0)
-		add(cfg|ssFixTS, cat(hdr0, []byte{0, 0})) // zero payload length
+		add(cfg|ssFixTS|ssFixSalt, cat(hdr0, []byte{0, 0}))             // zero payload length declared
+		add(cfg|ssFixTS|ssFixLen, cat(hdr, []byte{0, 0}))               // zero payload length, consistent
+		add(cfg|ssFixTS|ssFixSalt, cat(hdr, []byte{0, 4}, []byte("hell"))) // declared 5, sealed 4
+		add(cfg|ssFixTS|ssFixSalt, cat(hdr, []byte{0, 6}, []byte("hello!")))
 		add(cfg|ssFixTS|ssFixLen, cat([]byte{0}, hdr[1:], []byte{0, 5}, []byte("hello")))
 		add(cfg|ssFixTS|ssFixLen, cat(hdr, []byte{0, 5}, []byte("hello"), chunkRec(0, 0, 0)))
 		add(cfg|ssFixTS, cat(hdr, []byte{0, 9}, []byte("hello")))
@@ -410,10 +447,50 @@ func ssClientSeeds() (sels []uint8, seeds [][]byte) {
 func FuzzSS2022Client(f *testing.F) {
 	sels, seeds := ssClientSeeds()
 	for i := range seeds {
-		f.Add(sels[i], uint8(i), uint16(0), seeds[i])
-		f.Add(sels[i], uint8(i+2), uint16(0x0017), seeds[i])
+		f.Add(sels[i], uint8(i), uint16(i%3), seeds[i])
 	}
 	f.Fuzz(func(t *testing.T, sel, mode uint8, frag uint16, data []byte) { oracleSS2022Client(t, sel, mode, frag, data) })
+}
+
+// ssClientWire is the response stream a server would send for the client's request (whose salt it echoes
+// when the consistency bit is set): raw bytes or the plaintext structure sealed with the real key.
+func ssClientWire(sel uint8, data, request []byte, cc *ss2022.ClientCipherConfig) []byte {
+	if sel&ssRaw != 0 {
+		return data
+	}
+	k := ssKeysFor(sel)
+	pfx := 0
+	if sel&ssPrefix != 0 {
+		pfx = len(reqPrefix)
+	}
+	rest := data
+	hdr := take(&rest, 1+8+k.klen+2)
+	pl := min(takeLen(&rest), len(rest))
+	first := rest[:pl]
+	rest = rest[pl:]
+	if sel&ssFixTS != 0 {
+		hdr[0] = ss2022.HeaderTypeServerStream
+		binary.BigEndian.PutUint64(hdr[1:], uint64(time.Now().Unix()))
+	}
+	if sel&(ssFixLen|ssFixSalt) != 0 && len(request) >= pfx+k.klen {
+		copy(hdr[9:9+k.klen], request[pfx:pfx+k.klen])
+	}
+	if sel&ssFixLen != 0 {
+		binary.BigEndian.PutUint16(hdr[9+k.klen:], uint16(pl))
+	}
+	var wire []byte
+	if sel&ssPrefix != 0 {
+		wire = append(wire, respPrefix...)
+	}
+	salt := detSalt(k.klen, data, sel)
+	wire = append(wire, salt...)
+	sc, err := cc.ShadowStreamCipher(salt)
+	if err != nil {
+		return nil
+	}
+	wire = sc.EncryptAppend(wire, hdr)
+	wire = sc.EncryptAppend(wire, first)
+	return sealChunks(wire, sc, rest, sel&ssFixLen != 0)
 }
 
 func oracleSS2022Client(t failer, sel, mode uint8, frag uint16, data []byte) {
@@ -428,10 +505,6 @@ func oracleSS2022Client(t failer, sel, mode uint8, frag uint16, data []byte) {
 	if err != nil {
 		t.Fatalf("harness: %v", err)
 	}
-	pfx := 0
-	if sel&ssPrefix != 0 {
-		pfx = len(reqPrefix)
-	}
 	firstLen := k.klen + 1 + 8 + k.klen + 2 + 16
 	if sel&ssPrefix != 0 {
 		firstLen += len(respPrefix)
@@ -440,37 +513,7 @@ func oracleSS2022Client(t failer, sel, mode uint8, frag uint16, data []byte) {
 	if frag&0x8000 == 0 {
 		inner.firstMin = firstLen
 	}
-	inner.reply = func(_ int, _ conn.Addr, request []byte) []byte {
-		if sel&ssRaw != 0 {
-			return data
-		}
-		rest := data
-		hdr := take(&rest, 1+8+k.klen+2)
-		pl := min(takeLen(&rest), len(rest))
-		first := rest[:pl]
-		rest = rest[pl:]
-		if sel&ssFixTS != 0 {
-			hdr[0] = ss2022.HeaderTypeServerStream
-			binary.BigEndian.PutUint64(hdr[1:], uint64(time.Now().Unix()))
-		}
-		if sel&ssFixLen != 0 && len(request) >= pfx+k.klen {
-			copy(hdr[9:9+k.klen], request[pfx:pfx+k.klen])
-			binary.BigEndian.PutUint16(hdr[9+k.klen:], uint16(pl))
-		}
-		var wire []byte
-		if sel&ssPrefix != 0 {
-			wire = append(wire, respPrefix...)
-		}
-		salt := detSalt(k.klen, data, sel)
-		wire = append(wire, salt...)
-		sc, err := cc.ShadowStreamCipher(salt)
-		if err != nil {
-			return nil
-		}
-		wire = sc.EncryptAppend(wire, hdr)
-		wire = sc.EncryptAppend(wire, first)
-		return sealChunks(wire, sc, rest, sel&ssFixLen != 0)
-	}
+	inner.reply = func(_ int, _ conn.Addr, request []byte) []byte { return ssClientWire(sel, data, request, cc) }
 	scc := ss2022.StreamClientConfig{InnerClient: inner, Addr: conn.AddrFromIPPort(upstream), AllowSegmentedFixedLengthHeader: sel&ssSegment != 0, CipherConfig: cc}
 	if sel&ssPrefix != 0 {
 		scc.UnsafeRequestStreamPrefix, scc.UnsafeResponseStreamPrefix = reqPrefix, respPrefix
@@ -574,7 +617,7 @@ func ssUDPServerSeeds() (sels []uint8, seeds [][]byte) {
 
 func FuzzSS2022UDPServer(f *testing.F) {
 	sels, seeds := ssUDPServerSeeds()
-	for i := range seeds {
+	for _, i := range thin(len(seeds), 160) {
 		f.Add(sels[i], seeds[i])
 	}
 	f.Fuzz(func(t *testing.T, sel uint8, data []byte) { oracleSS2022UDPServer(t, sel, data) })
@@ -596,7 +639,50 @@ func sealUDP(blk cipher.Block, aead cipher.AEAD, eih []byte, sid, pid uint64, bo
 	return out
 }
 
-func oracleSS2022UDPServer(t failer, sel uint8, data []byte) {
+// ssUDPServerPacket builds one client->server datagram from a plaintext record [sid][pid][body].
+func ssUDPServerPacket(sel uint8, pt []byte, ucc ss2022.UserCipherConfig, icc ss2022.ServerIdentityCipherConfig) ([]byte, error) {
+	if sel&ssRaw != 0 {
+		return pt, nil
+	}
+	k := ssKeysFor(sel)
+	if len(pt) < 16 {
+		pt = append(append([]byte(nil), pt...), make([]byte, 16-len(pt))...)
+	}
+	sid, pid := ss2022.ParseSessionIDAndPacketID(pt[:16])
+	body := append([]byte(nil), pt[16:]...)
+	if sel&ssFixTS != 0 && len(body) >= 9 {
+		body[0] = ss2022.HeaderTypeClientPacket
+		binary.BigEndian.PutUint64(body[1:], uint64(time.Now().Unix()))
+	}
+	aead, err := ucc.AEAD(binary.BigEndian.AppendUint64(nil, sid))
+	if err != nil {
+		return nil, err
+	}
+	if k.eih {
+		h := ss2022.PSKHash(k.upsk)
+		return sealUDP(icc.UDP(), aead, h[:], sid, pid, body), nil
+	}
+	return sealUDP(ucc.Block(), aead, nil, sid, pid, body), nil
+}
+
+// ssUDPKeys returns the server-side cipher configurations of configuration sel with UDP enabled.
+func ssUDPKeys(sel uint8) (ucc ss2022.UserCipherConfig, icc ss2022.ServerIdentityCipherConfig, suc ss2022.ServerUserCipherConfig, err error) {
+	k := ssKeysFor(sel)
+	if k.eih {
+		if icc, err = ss2022.NewServerIdentityCipherConfig(k.psk, true); err != nil {
+			return
+		}
+		if suc, err = ss2022.NewServerUserCipherConfig("alice", k.upsk, true); err != nil {
+			return
+		}
+		ucc = suc.UserCipherConfig
+		return
+	}
+	ucc, err = ss2022.NewUserCipherConfig(k.psk, true)
+	return
+}
+
+func oracleSS2022UDPServer(t failer, sel uint8, data []byte) (out oracleResult) {
 	desc := func() string { return fmt.Sprintf("sel=%#x data=%s", sel, hexs(data)) }
 	k := ssKeysFor(sel)
 	var (
@@ -641,32 +727,12 @@ func oracleSS2022UDPServer(t failer, sel uint8, data []byte) {
 		n := min(takeLen(&rest), len(rest), recvSize)
 		pt := rest[:n]
 		rest = rest[n:]
-		var pkt []byte
-		if sel&ssRaw != 0 {
-			pkt = pt
-		} else {
-			if len(pt) < 16 {
-				pt = append(pt, make([]byte, 16-len(pt))...)
-			}
-			sid, pid := ss2022.ParseSessionIDAndPacketID(pt[:16])
-			body := append([]byte(nil), pt[16:]...)
-			if sel&ssFixTS != 0 && len(body) >= 9 {
-				body[0] = ss2022.HeaderTypeClientPacket
-				binary.BigEndian.PutUint64(body[1:], uint64(time.Now().Unix()))
-			}
-			aead, err := ucc.AEAD(binary.BigEndian.AppendUint64(nil, sid))
-			if err != nil {
-				t.Fatalf("harness: %v", err)
-			}
-			if k.eih {
-				h := ss2022.PSKHash(k.upsk)
-				pkt = sealUDP(icc.UDP(), aead, h[:], sid, pid, body)
-			} else {
-				pkt = sealUDP(ucc.Block(), aead, nil, sid, pid, body)
-			}
-			if len(pkt) > recvSize {
-				pkt = pkt[:recvSize]
-			}
+		pkt, err := ssUDPServerPacket(sel, pt, ucc, icc)
+		if err != nil {
+			t.Fatalf("harness: %v", err)
+		}
+		if len(pkt) > recvSize {
+			pkt = pkt[:recvSize]
 		}
 		buf := make([]byte, hr.Front+recvSize+hr.Rear)
 		copy(buf[hr.Front:], pkt)
@@ -709,7 +775,7 @@ func oracleSS2022UDPServer(t failer, sel uint8, data []byte) {
 		}
 		accepted++
 		cls = addrClass(ta)
-		useAddr(t, recSSUDPServer, "ss2022-udp-server", ta, username, true)
+		out = oracleResult{true, ta, username, useAddr(t, recSSUDPServer, "ss2022-udp-server", ta, username, true)}
 		// relay the payload in place with each upstream packer exactly where the service would
 		relayInPlace(t, recSSUDPServer, desc, buf, ta, ps, pl)
 		if packer != nil && ta.IsIP() {
@@ -725,6 +791,7 @@ func oracleSS2022UDPServer(t failer, sel uint8, data []byte) {
 		return
 	}
 	recSSUDPServer.Case(fmt.Sprintf("%#x/%s/%d", sel&3, cls, accepted), true, "accepted", "class:"+cls, fmt.Sprintf("datagrams:%d", accepted))
+	return
 }
 
 // relayHeadroomMax is the largest client packer headroom of the upstream clients the harness relays to
@@ -799,10 +866,34 @@ func ssUDPClientSeeds() (sels []uint8, seeds [][]byte) {
 
 func FuzzSS2022UDPClient(f *testing.F) {
 	sels, seeds := ssUDPClientSeeds()
-	for i := range seeds {
+	for _, i := range thin(len(seeds), 160) {
 		f.Add(sels[i], seeds[i])
 	}
 	f.Fuzz(func(t *testing.T, sel uint8, data []byte) { oracleSS2022UDPClient(t, sel, data) })
+}
+
+// ssUDPClientPacket builds one server->client datagram from a plaintext record [ssid][spid][body].
+func ssUDPClientPacket(sel uint8, pt []byte, csid uint64, cc *ss2022.ClientCipherConfig) ([]byte, error) {
+	if sel&ssRaw != 0 {
+		return pt, nil
+	}
+	if len(pt) < 16 {
+		pt = append(append([]byte(nil), pt...), make([]byte, 16-len(pt))...)
+	}
+	ssid, spid := ss2022.ParseSessionIDAndPacketID(pt[:16])
+	body := append([]byte(nil), pt[16:]...)
+	if sel&ssFixTS != 0 && len(body) >= 9 {
+		body[0] = ss2022.HeaderTypeServerPacket
+		binary.BigEndian.PutUint64(body[1:], uint64(time.Now().Unix()))
+	}
+	if sel&ssFixLen != 0 && len(body) >= 17 {
+		binary.BigEndian.PutUint64(body[9:], csid)
+	}
+	aead, err := cc.AEAD(binary.BigEndian.AppendUint64(nil, ssid))
+	if err != nil {
+		return nil, err
+	}
+	return sealUDP(cc.Block(), aead, nil, ssid, spid, body), nil
 }
 
 func oracleSS2022UDPClient(t failer, sel uint8, data []byte) {
@@ -842,30 +933,12 @@ func oracleSS2022UDPClient(t failer, sel uint8, data []byte) {
 		n := min(takeLen(&rest), len(rest), recvSize)
 		pt := rest[:n]
 		rest = rest[n:]
-		var pkt []byte
-		if sel&ssRaw != 0 {
-			pkt = pt
-		} else {
-			if len(pt) < 16 {
-				pt = append(pt, make([]byte, 16-len(pt))...)
-			}
-			ssid, spid := ss2022.ParseSessionIDAndPacketID(pt[:16])
-			body := append([]byte(nil), pt[16:]...)
-			if sel&ssFixTS != 0 && len(body) >= 9 {
-				body[0] = ss2022.HeaderTypeServerPacket
-				binary.BigEndian.PutUint64(body[1:], uint64(time.Now().Unix()))
-			}
-			if sel&ssFixLen != 0 && len(body) >= 17 {
-				binary.BigEndian.PutUint64(body[9:], csid)
-			}
-			aead, err := cc.AEAD(binary.BigEndian.AppendUint64(nil, ssid))
-			if err != nil {
-				t.Fatalf("harness: %v", err)
-			}
-			pkt = sealUDP(cc.Block(), aead, nil, ssid, spid, body)
-			if len(pkt) > recvSize {
-				pkt = pkt[:recvSize]
-			}
+		pkt, err := ssUDPClientPacket(sel, pt, csid, cc)
+		if err != nil {
+			t.Fatalf("harness: %v", err)
+		}
+		if len(pkt) > recvSize {
+			pkt = pkt[:recvSize]
 		}
 		// downlink layout (service/udp_*.go relayNatConnToServerConn*): front = max(0, serverPackerFront - clientUnpackerFront)
 		for _, sp := range srvPackers {
